@@ -15,7 +15,7 @@
 (* the parameter version, the mode/grad flags seen by every forward.        *)
 EXTENDS Integers, Sequences, FiniteSets, TLC, Json
 
-CONSTANTS Configs      \* set of [k, n, ntimes, validation, optclass, lazy, init, pre_eval, extra]
+CONSTANTS Configs      \* set of [k, n, ntimes, validation, optclass, lazy, init, pre_eval, extra, stale]
                        \* pre_eval: the hedger was left in evaluation mode before fit(); extra: the optimiser also owns
                        \* parameters outside the model (a parametrised criterion)
 
@@ -29,8 +29,11 @@ vars == <<cfg, pc, epoch, mode, zeroed, steps, pver, contrib, batch, fresh, hlen
    sims    : number of simulate calls, out: "running" / "history" / "none" *)
 
 Init == /\ cfg \in Configs
-        /\ pc = "configure" /\ epoch = 0 /\ mode = "initial" /\ zeroed = TRUE /\ steps = 0 /\ pver = 0
-        /\ contrib = {} /\ batch = 0 /\ fresh = FALSE /\ hlen = 0 /\ vdone = 0 /\ sims = 0 /\ out = "running"
+        /\ pc = "configure" /\ epoch = 0 /\ mode = "initial" /\ steps = 0 /\ pver = 0
+        \* stale: the parameters already carry a gradient when fit() is entered (the user back-propagated a loss before):
+        \* it is the contribution of a "batch 0" that no step of this fit may use
+        /\ zeroed = ~cfg.stale /\ contrib = (IF cfg.stale THEN {0} ELSE {})
+        /\ batch = 0 /\ fresh = FALSE /\ hlen = 0 /\ vdone = 0 /\ sims = 0 /\ out = "running"
 
 U(keep) == UNCHANGED keep
 
